@@ -1,16 +1,17 @@
 """C36 — a crashed or disconnected party never makes others output wrong values (fault enumeration)."""
 import random
+import asyncio
 
 PROPERTY = 'C36'
 ENGINE = 'SIM'
 LEVEL = 'fault_enumeration'
-TECHNIQUE = 'fault injection with enumerated crash points: one party is stopped at a chosen byte offset of its total outgoing stream (EOF / reset / silent), survivors\' completed outputs are compared with the reference; hangs are decided by quiescence and allowed'
+TECHNIQUE = 'fault injection with enumerated crash points: one party is stopped at a chosen byte offset of its total outgoing stream (EOF / reset / silent), survivors\' completed outputs are compared with the reference; hangs are decided by quiescence and allowed; plus application-level stops (an exception leaving `async with mpc:`, a process exit between rounds while the survivors guard their outputs with try/except and carry on)'
 RULE = ('case = (configuration, program, crashing party X, byte offset B in X\'s outgoing stream, end-of-stream mode, schedule); '
         'non-trivial = the crash happened before X finished (B < bytes X sends in the fault-free run) and >= 1 survivor was still waiting; distinct by that tuple')
 EXHAUSTIVE = 'thorough: every byte offset for m <= 3, every 2nd (m=4) / 5th (m=5) byte plus all frame-relative offsets; quick: every frame boundary of every party plus offsets +1,+8,+11,+12,+13 and mid-payload inside every frame, 3 end-of-stream modes; thorough: every byte offset'
 ASSUMPTIONS = ['a crash = the party stops executing and its connections end (EOF or reset) or go silent; bytes written before the crash point are delivered',
                'SIM transport/loop assumptions as in C08']
-REQUIRE = {'any': {'crash_runs': 1000, 'survivor_outputs_checked': 1000, 'runs_where_survivors_hang': 100, 'crash_inside_frame': 300}}
+REQUIRE = {'any': {'crash_runs': 1000, 'survivor_outputs_checked': 1000, 'runs_where_survivors_hang': 100, 'crash_inside_frame': 300, 'stops_by_application_error': 200, 'crashes_with_guarded_survivors': 200}}
 LEVEL_TEXT = 'fault enumeration over crash points of bounded programs in configurations (2,0),(3,1) with and without PRSS,(4,1),(5,2) (thorough)'
 LEVEL_NOTE = 'trusted: vlib/sim.py fault injection; reference values from Python ints'
 TIMEOUT = {'quick': 1500, 'thorough': 14000}
@@ -25,6 +26,8 @@ def shards(tier, seed):
         for p in range(PROGRAMS):
             for x in range(c[0]):
                 out.append({'name': f'm{c[0]}t{c[1]}{"np" if c[2] else "prss"}-prog{p}-X{x}', 'cfg': list(c), 'prog': p, 'X': x, 'every_byte': tier == 'thorough'})
+    for c in [(3, 1, False), (4, 1, False), (3, 1, True), (5, 2, False)] + ([(5, 1, False), (4, 1, True), (2, 0, False)] if tier != 'quick' else []):
+        out.append({'name': f'stop-m{c[0]}t{c[1]}{"np" if c[2] else "prss"}', 'kind': 'stop', 'cfg': list(c), 'reps': 8 if tier == 'quick' else 40})
     return out
 
 
@@ -76,11 +79,130 @@ def make_program(p, m, vals, obs):
     return program, ref
 
 
+def make_rounds_program(m, vals, obs, style, X, R, world, s0=0):
+    """rounds of (product output to all, single-sender input, output to a subset); party X stops after round R the way applications stop:
+    style 'context'  - an application error propagates out of `async with mpc:` (the process then exits);
+    style 'guarded'  - X is halted (crash injection by the caller); the survivors guard each output with try/except and carry on with the next step."""
+    ref = {}
+    for r in range(5):
+        ref[f'prod{r}'] = vals[r % m] * vals[(r + 1) % m] + r
+        ref[f'lin{r}'] = 3 * vals[r % m] - vals[(r + 1) % m] + r
+        ref[f'in{r}'] = vals[(r + s0) % m] + 7 * r + vals[0]
+    expected_exc = (ConnectionError, OSError)
+
+    async def body(mpc, pid):
+        secint = mpc.SecInt(32)
+        xs = mpc.input(secint(vals[pid]))
+        rec = obs[pid]
+        for r in range(5):
+            lin = 3 * xs[r % m] - xs[(r + 1) % m] + r
+            if style == 'context' and pid == X and r == R:
+                raise RuntimeError('application failure')
+            if style == 'guarded' and pid == X and r == R:
+                world[0].crash(pid)                 # the process exits here (os._exit): connections end, nothing more is sent
+                await asyncio.sleep(0)
+                return False
+            if style == 'guarded' and r == R:
+                for _ in range(30):                  # the survivors notice the lost connection before they go on
+                    await asyncio.sleep(0)
+            try:
+                v = await mpc.output(lin)        # opened without any interaction before it
+                rec.append((f'lin{r}', v))
+            except expected_exc:
+                if style != 'guarded':
+                    raise
+            if r % 2:
+                try:
+                    v = await mpc.output(xs[r % m] * xs[(r + 1) % m] + r)
+                    rec.append((f'prod{r}', v))
+                except expected_exc:
+                    if style != 'guarded':
+                        raise
+            # a single-sender input directly after an output (and, in odd rounds, after a product)
+            y = mpc.input(secint(vals[pid] + 7 * r), senders=(r + s0) % m)
+            try:
+                v = await mpc.output(y + xs[0], receivers=[(r + 1) % m, (r + 2) % m])
+                if v is not None:
+                    rec.append((f'in{r}', v))
+            except expected_exc:
+                if style != 'guarded':
+                    raise
+            if not r % 2:
+                try:
+                    v = await mpc.output(xs[r % m] * xs[(r + 1) % m] + r)
+                    rec.append((f'prod{r}', v))
+                except expected_exc:
+                    if style != 'guarded':
+                        raise
+        return True
+
+    async def program(mpc, pid):
+        try:
+            async with mpc:
+                return await body(mpc, pid)
+        except RuntimeError:
+            world[0].crash(pid)             # the failing application's process exits
+            raise
+    return program, ref
+
+
+def run_stop(shard, rec, sim):
+    m, t, no_prss = shard['cfg']
+    rng = random.Random(f"c36/{shard['seed']}/{shard['name']}")
+    for rep in range(shard['reps']):
+        vals = [rng.randint(-50, 50) for _ in range(m)]
+        for X in range(m):
+            for style in ('context', 'guarded'):
+                for R in range(4):
+                    policy = rng.choice(('uniform', 'eager', 'lazy', 'reverse'))
+                    sseed = rng.randrange(1 << 30)
+                    case = [shard['name'], rep, X, style, R, policy]
+                    if not rec.wants(case):
+                        continue
+                    obs = [[] for _ in range(m)]
+                    world = [None]
+                    program, ref = make_rounds_program(m, vals, obs, style, X, R, world)
+                    kw = {}
+                    s0 = rng.randrange(m)
+                    program, ref = make_rounds_program(m, vals, obs, style, X, R, world, s0)
+                    if style == 'guarded':
+                        kw = {'crash_mode': rng.choice(['eof', 'reset'])}
+                    w = sim.World(m, t, no_prss, seed=sseed, policy=policy, **kw)
+                    world[0] = w
+                    w.run(program, wrap=False, stuck_after=2500)
+                    rec.count('crash_runs')
+                    rec.count('stops_by_application_error' if style == 'context' else 'crashes_with_guarded_survivors')
+                    hang = w.status in ('DEADLOCK', 'STUCK')
+                    rec.count('runs_where_survivors_hang', int(hang))
+                    wrong, nout = [], 0
+                    for pid in range(m):
+                        if pid == X:
+                            continue
+                        for k, v in obs[pid]:
+                            nout += 1
+                            try:
+                                ok = int(v) == ref[k]
+                            except Exception:
+                                ok = False
+                            if not ok:
+                                wrong.append((pid, k, v, ref[k]))
+                    rec.count('survivor_outputs_checked', nout)
+                    if wrong:
+                        pid, k, v, e = wrong[0]
+                        how = 'stopped with an application error after round' if style == 'context' else f'was halted ({kw.get("crash_mode")}) around round'
+                        rec.violation(f'{shard["name"]}: party {X} {how} {R}; survivor {pid} completed output {k}={v!r}, correct value {e}',
+                                      {'mechanism': 'wrong-output-after-crash', 'mode': style, 'inside_frame': False},
+                                      {'vals': vals, 'policy': policy, 'sched_seed': sseed, 'all_wrong': wrong[:5]}, case=case)
+                    rec.case(case, nontrivial=True, sample={'config': shard['name'], 'stopping_party': X, 'style': style, 'round': R, 'world_end': w.status, 'survivor_outputs_completed': nout} if rep == 0 and X == 1 and R == 1 else None)
+
+
 def run(shard, rec):
     from vlib import env
     env.prepare()
     from vlib import sim
     sim.install()
+    if shard.get('kind') == 'stop':
+        return run_stop(shard, rec, sim)
     m, t, no_prss = shard['cfg']
     p, X = shard['prog'], shard['X']
     rng = random.Random(f"c36/{shard['seed']}/{shard['name']}")
